@@ -23,3 +23,7 @@ func verifRoundTripQuorumCert(qc hotstuff.QuorumCert) hotstuff.QuorumCert {
 func verifRoundTripTimeoutCert(tc hotstuff.TimeoutCert) hotstuff.TimeoutCert {
 	return TimeoutCertFromProto(TimeoutCertToProto(tc))
 }
+
+func verifRoundTripBlock(block *hotstuff.Block) *hotstuff.Block {
+	return BlockFromProto(BlockToProto(block))
+}
